@@ -1866,8 +1866,12 @@ class Fxp():
         return self._set_array_output_type(_NUMPY_HANDLED_FUNCTIONS[func](*args, **kwargs))
 
     def _wrapped_numpy_func(self, func, *args, **kwargs):
-        # convert func inputs to numpy arrays
-        args = [np.asarray(arg) if isinstance(arg, self.__class__) else arg for arg in args]
+        # convert func inputs to numpy arrays (comparisons always compare values: a code against a plain number, or codes of two
+        # different formats, say nothing about the order of the values)
+        if func in (np.less, np.less_equal, np.equal, np.not_equal, np.greater, np.greater_equal):
+            args = [np.asarray(arg.get_val()) if isinstance(arg, self.__class__) else arg for arg in args]
+        else:
+            args = [np.asarray(arg) if isinstance(arg, self.__class__) else arg for arg in args]
 
         # out parameter extraction if Fxp
         out = None
